@@ -21,10 +21,14 @@ type c14send struct {
 	tmpl     *expTmpl
 	template bool
 	n        int
+	// failWrite: the connection refuses the application's write for this send - a failed re-announcement of
+	// tmpl, which must stay known and keep being refreshed
+	failWrite bool
 }
 
 // c14check verifies that every write is exactly one well-formed message of a known shape.
 const c14domain = 0x0A0B0C07
+
 
 func c14checkLog(conn *vnet.FakeConn, ts []*expTmpl) {
 	byID := map[uint16]*expTmpl{}
@@ -125,6 +129,9 @@ func c14UDP(name string, advances int, closers int, sends []c14send, ts []*expTm
 					ts := entities.NewSet(false)
 					ts.PrepareSet(entities.Template, s.tmpl.ref.ID)
 					ts.AddRecordV2(scratch, s.tmpl.ref.ID)
+					if s.failWrite {
+						conn.FailWritesOf, conn.FailWrites = vsched.CurID(), 1
+					}
 					set = ts
 				} else {
 					set, _ = dataSet(s.tmpl, s.n, 5, 0)
@@ -132,6 +139,9 @@ func c14UDP(name string, advances int, closers int, sends []c14send, ts []*expTm
 				n, err := ep.SendSet(set)
 				if err == nil && s.template {
 					tmplDone = append(tmplDone, done{s.tmpl.ref.ID, vsched.StepNo()})
+				}
+				if s.failWrite && err == nil {
+					vsched.Fail("silent-drop", "the connection refused the write, yet SendSet reported success")
 				}
 				if err == nil && n == 0 {
 					vsched.Fail("silent-drop", "SendSet returned (0, nil)")
@@ -362,8 +372,8 @@ func c14JSON(name string, ts []*expTmpl) *vsched.Scenario {
 
 func c14E2(tier string) []*e2Scenario {
 	ts := c08Tmpls()
-	sends := []c14send{{ts[0], true, 0}, {ts[0], false, 2}, {ts[1], true, 0}, {ts[1], false, 1}}
-	short2 := []c14send{{ts[0], true, 0}, {ts[0], false, 1}}
+	sends := []c14send{{ts[0], true, 0, false}, {ts[0], false, 2, false}, {ts[1], true, 0, false}, {ts[1], false, 1, false}}
+	short2 := []c14send{{ts[0], true, 0, false}, {ts[0], false, 1, false}}
 	b := 2
 	if tier == "thorough" {
 		b = 3
@@ -371,6 +381,7 @@ func c14E2(tier string) []*e2Scenario {
 	return []*e2Scenario{
 		{Name: "udp-1-refresh-vs-app", Sc: c14UDP("udp-1-refresh-vs-app", 1, 0, sends, ts), Bound: b},
 		{Name: "udp-1b-two-refreshes", Sc: c14UDP("udp-1b-two-refreshes", 2, 0, sends[:3], ts), Bound: b},
+		{Name: "udp-1c-failed-reannouncement", Sc: c14UDP("udp-1c-failed-reannouncement", 1, 0, []c14send{{ts[0], true, 0, false}, {ts[0], true, 0, true}, {ts[0], false, 1, false}}, ts), Bound: b},
 		{Name: "udp-2-concurrent-close", Sc: c14UDP("udp-2-concurrent-close", 1, 2, short2, ts), Bound: b},
 		{Name: "tcp-1-peer-close", Sc: c14TCP("tcp-1-peer-close", 0, sends[:3], ts), Bound: b},
 		{Name: "tcp-1b-peer-close-after-quiet-checks", Sc: c14TCP("tcp-1b-peer-close-after-quiet-checks", 0, sends[:2], ts, 2), Bound: b},
